@@ -86,14 +86,17 @@ theorem run_spec (fpp : Nat) (L : List GL) (f0 : Int) (hL : L ≠ []) :
         rep' = rep + (bs.map (·.2.dropped)).sum ∧
         (∀ tk b, bs.getLast? = some (tk, b) → tk + 1 = t + hist.length →
           s'.pend = 0 ∧ ∀ i l, L[i]? = some l → a' i = addedOf l (B i)) ∧
-        (hist = [] → s' = s ∧ a' = a) := by
+        (hist = [] → s' = s ∧ a' = a) ∧
+        (∀ x ∈ bs, ∃ nb mb, n ≤ nb ∧ nb + mb ≤ n' ∧ 0 < mb ∧ x.2.nframes = mb * fpp ∧
+          ∀ i l, L[i]? = some l → x.2.data[i]? = some (window L B l i nb mb)) := by
   intro hist
   induction hist with
   | nil =>
     intro t s A B c a n rep perms hB hok _ _ hinv
     have hBA : B = A := funext fun i => by rw [hB i, arrOf_nil, List.append_nil]
     subst hBA
-    refine ⟨s, [], c, a, n, rep, rfl, hinv, Nat.le_refl _, rfl, ?_, ?_, by simp, ?_, fun _ => ⟨rfl, rfl⟩⟩
+    refine ⟨s, [], c, a, n, rep, rfl, hinv, Nat.le_refl _, rfl, ?_, ?_, by simp, ?_, fun _ => ⟨rfl, rfl⟩,
+      (fun x hx => by simp at hx)⟩
     · intro b hb; simp at hb
     · intro i l _ ch _
       rw [Nat.sub_self]; simp [catChan, chanData]
@@ -120,17 +123,17 @@ theorem run_spec (fpp : Nat) (L : List GL) (f0 : Int) (hL : L ≠ []) :
     cases o with
     | none =>
       simp only [] at hcase
-      obtain ⟨s', bs, c', a', n', rep', hrun, hinv', hnn, hfr, hsh, hdat, hrep, hlast, _⟩ :=
+      obtain ⟨s', bs, c', a', n', rep', hrun, hinv', hnn, hfr, hsh, hdat, hrep, hlast, _, hwin⟩ :=
         ih (t + 1) s1 _ B c1 a1 n rep ps hB1 hok (by simpa using hlen)
           (fun q hq => hcov q (List.mem_cons_of_mem _ hq)) hcase
       rw [hrun]
-      refine ⟨s', bs, c', a', n', rep', rfl, hinv', hnn, hfr, hsh, hdat, hrep, ?_, fun h => by cases h⟩
+      refine ⟨s', bs, c', a', n', rep', rfl, hinv', hnn, hfr, hsh, hdat, hrep, ?_, (fun h => by cases h), hwin⟩
       intro tk b h1 h2
       exact hlast tk b h1 (by simp only [List.length_cons] at h2; omega)
     | some b =>
       simp only [] at hcase
       obtain ⟨m, hm, hinv1, hnf, hfirst, hpend, ha1, hdlen, hdata⟩ := hcase
-      obtain ⟨s', bs, c', a', n', rep', hrun, hinv', hnn, hfr, hsh, hdat, hrep, hlast, hnil⟩ :=
+      obtain ⟨s', bs, c', a', n', rep', hrun, hinv', hnn, hfr, hsh, hdat, hrep, hlast, hnil, hwin⟩ :=
         ih (t + 1) s1 _ B c1 a1 (n + m) (rep + b.dropped) ps hB1 hok (by simpa using hlen)
           (fun q hq => hcov q (List.mem_cons_of_mem _ hq)) hinv1
       rw [hrun]
@@ -143,7 +146,18 @@ theorem run_spec (fpp : Nat) (L : List GL) (f0 : Int) (hL : L ≠ []) :
         rw [hB1 i] at hg
         rw [hB1 i, (fullOf_append hg).1]
         exact take_drop_append _ _ _ _ (by have := (hdata i l hl).1; omega)
-      refine ⟨s', (t, b) :: bs, c', a', n', rep', rfl, hinv', by omega, ?_, ?_, ?_, ?_, ?_, fun h => by cases h⟩
+      refine ⟨s', (t, b) :: bs, c', a', n', rep', rfl, hinv', by omega, ?_, ?_, ?_, ?_, ?_, (fun h => by cases h), ?_⟩
+      rotate_right
+      · intro x hx
+        rcases List.mem_cons.mp hx with hx | hx
+        · subst hx
+          refine ⟨n, m, Nat.le_refl _, hnn, hm, hnf, ?_⟩
+          intro i l hl
+          rw [(hdata i l hl).2]
+          unfold window
+          simp only [hstable i l hl]
+        · obtain ⟨nb, mb, k1, k2, k3, k4, k5⟩ := hwin x hx
+          exact ⟨nb, mb, by omega, k2, k3, k4, k5⟩
       · show chkFrames _ (b :: bs.map (·.2)) = true
         rw [chkFrames, hfirst, hnf]
         simp only [beq_self_eq_true, Bool.true_and]
